@@ -373,6 +373,10 @@ func renderCSSItemsToBuilder(sb *strings.Builder, v *contextValue, classes ...an
 			for _, item := range ccc {
 				renderCSSItemsToBuilder(sb, v, item)
 			}
+		case []KeyValue[CSSClass, bool]:
+			for _, item := range ccc {
+				renderCSSItemsToBuilder(sb, v, item)
+			}
 		case func() CSSClass:
 			renderCSSItemsToBuilder(sb, v, ccc())
 		case []string:
